@@ -308,6 +308,8 @@ type c07 struct {
 	histAbsent bool
 	popPolicy  int
 	long       bool
+	freshKeys  int
+	freshSeq   int
 	conc       bool
 
 	// bookkeeping for signatures and probes
@@ -360,6 +362,12 @@ func (c *c07) onChain(v *c07ver) bool {
 // ------------------------------------------------------------- generators ----
 
 func (c *c07) genKey() string {
+	if c.freshKeys > 0 {
+		// a key no earlier commit has touched
+		c.freshKeys--
+		c.freshSeq++
+		return fmt.Sprintf("z%d", c.freshSeq)
+	}
 	l := c.t.Pick([]int{1, 3, 4, 3, 2})
 	b := make([]byte, l)
 	for i := range b {
@@ -1761,6 +1769,11 @@ func runC07(r *simrt.Run) {
 					c.r.Probe("far-view-reopened-" + when)
 				}
 			}
+			// commits that create keys nothing has touched so far: the far views, cached when the frontier was
+			// lower, must be brought up to date (the new keys are absent in them)
+			c.freshKeys = 2 + t.Choose(3)
+			c.bulk(c.freshKeys)
+			c.freshKeys = 0
 			reopenFar("before-rollback")
 			for i := 0; i < 1+t.Choose(3) && len(c.chain) > 2; i++ {
 				c.opPop()
